@@ -51,6 +51,10 @@ class DecUniverse(fv.Universe):
             out = {"kind": "Number"}
             out.update(dv.describe_num(model, dv.num_of(v.alts["Number"][0]), mv))
             return out
+        if "String" in v.alts and d == self.idx("String") and "seq" in v.alts["String"][0].attrs:
+            q = v.alts["String"][0].attrs["seq"]
+            n = mv(model, q.len)
+            return {"kind": "String", "chars": [mv(model, c.e) for c in q.items[:n]]}
         return super().describe(model, v, mv)
 
 
@@ -323,7 +327,22 @@ def run(check, mirror, tier):
 
         def desc(m, v):
             return {k: dv.describe_num(m, dv.num_of(v[k]), model_value) for k in ("a", "b")}
-        jobs.append(lambda c: decide(c, crate, "repr/compare", setup, post, None, rb, models=MODELS, describe=desc, known_predicates=KNOWN_PRED, max_cex=6))
+        def prefer(v):
+            x, y = dv.num_of(v["a"]), dv.num_of(v["b"])
+            return [z3.And(x.e == rat(c1[0]), x.info["q"] == c1[1], y.e == rat(c2[0]), y.info["q"] == c2[1]) for c1 in CANDS for c2 in CANDS]
+
+        def replay(i, rb):
+            if cand_text(i["a"]) is None or cand_text(i["b"]) is None:
+                return False, "no FEEL text for these representations"
+            ta, tb = cand_text(i["a"]), cand_text(i["b"])
+            x, y = dv.frac_of(i["a"]), dv.frac_of(i["b"])
+            bad, outs = False, []
+            for sym, want in (("=", x == y), ("<", x < y), ("<=", x <= y), (">", x > y), (">=", x >= y)):
+                _, out, _ = replay_call(rb, ["feel", "%s %s %s" % (ta, sym, tb)])
+                outs.append("%s %s %s -> %s" % (ta, sym, tb, out))
+                bad = bad or out.strip() != "VALUE %s" % ("true" if want else "false")
+            return bad, "; ".join(outs)
+        jobs.append(lambda c: decide(c, crate, "repr/compare", setup, post, replay, rb, models=MODELS, describe=desc, prefer=prefer, known_predicates=KNOWN_PRED, max_cex=6))
     repr_compare()
 
     run_parallel(check, jobs)
